@@ -39,4 +39,6 @@ LimitLimits == {0, 1, 2}
 LfAlphabet(t) == {F0("Lf"), F1("Print", 97)}
 OneRow == {<<1, 1>>}
 Eleven == {11, 10}
+LfOnly(t) == {F0("Lf")}
+Twenty == {20, 21, 40}          \* from 20 on there are sizes strictly between the soft and the hard limit
 =============================================================================
